@@ -140,9 +140,10 @@ def run_seq(seq, kind, statemode, target, keep_protected=False, near=False):
                     got = walk_files(out)
                     wrong = [k for k, v in got.items()
                              if isinstance(v, bytes) and v not in {CONTENTS[c] for c in TREES["A"].values()}]
-                    if wrong:
+                    trusted = keep_protected and kind == "local" and model == "corrupt"
+                    if wrong and not trusted:
                         viol.append(("checkout-materialised-corrupt-bytes", f"{wrong} at {where}"))
-                    if target == "file" and model != "intact" and got:
+                    if target == "file" and model != "intact" and got and not trusted:
                         viol.append(("checkout-materialised-a-rejected-object", f"{got} at {where}"))
                     if target == "file" and model == "intact" and got != {"": good_bytes}:
                         viol.append(("checkout-of-intact-object-failed", f"{got} at {where}"))
@@ -155,6 +156,11 @@ def run_seq(seq, kind, statemode, target, keep_protected=False, near=False):
                     except Exception as e:  # noqa: BLE001
                         res = f"raised-{type(e).__name__}"
                     now = open(path, "rb").read() if os.path.exists(path) else None
+                    if keep_protected and kind == "local" and model == "corrupt":
+                        # a corrupt object that kept 0o444 is trusted by design (outside the claim)
+                        counted["protected_tamper_trusted"] += 1
+                        model = "intact" if now == good_bytes else ("absent" if now is None else "corrupt")
+                        continue
                     if now is not None and now != good_bytes:
                         viol.append(("verify-retained-mismatching-object", f"{now[:30]!r} at {where}"))
                     if op.endswith("good"):
